@@ -25,7 +25,7 @@ import (
 )
 
 func init() {
-	evid.Register(&evid.Check{ID: "C01", Level: "exploration", Run: run, QuickBudget: 150 * time.Second, ThoroughBudget: 20 * time.Minute})
+	evid.Register(&evid.Check{ID: "C01", Level: "exploration", Run: run, QuickBudget: 200 * time.Second, ThoroughBudget: 20 * time.Minute})
 }
 
 // Case is what is written to samples / replays.
@@ -34,7 +34,30 @@ type Case struct {
 	Spec      *Spec             `json:"spec,omitempty"`
 	Selection *Selection        `json:"selection,omitempty"`
 	Files     map[string]string `json:"files,omitempty"`
+	World     *WorldInfo        `json:"world,omitempty"` // module table and file ownership (texts are in Files)
 	Note      string            `json:"note,omitempty"`
+}
+
+// WorldInfo is the structure of a world without the texts, enough to re-judge a recorded case.
+type WorldInfo struct {
+	ModDirs  []string   `json:"mod_dirs"`
+	ModNames []string   `json:"mod_names"`
+	Files    []FileInfo `json:"files"`
+}
+
+// FileInfo is the ownership record of one file.
+type FileInfo struct {
+	Path   string `json:"path"`
+	Module int    `json:"module"`
+	Ext    string `json:"ext"`
+}
+
+func infoOf(w *World) *WorldInfo {
+	wi := &WorldInfo{ModDirs: w.ModDirs, ModNames: w.ModNames}
+	for _, f := range w.Files {
+		wi.Files = append(wi.Files, FileInfo{Path: f.Path, Module: f.Module, Ext: f.Ext})
+	}
+	return wi
 }
 
 type runner struct {
@@ -153,14 +176,15 @@ func pathSelections(subDir string, cands []string, maxPaths, maxExcl int, fullPr
 	return sels
 }
 
-var reNorm = regexp.MustCompile(`"[^"]*"|[0-9]+`)
+var reNorm = regexp.MustCompile(`"[^"]*"|[A-Za-z0-9_./-]+\.proto|[0-9]+`)
 
 func normErr(err error) string {
 	s := err.Error()
-	if len(s) > 160 {
-		s = s[:160]
+	s = reNorm.ReplaceAllString(s, "_")
+	if len(s) > 120 {
+		s = s[:120]
 	}
-	return reNorm.ReplaceAllString(s, "_")
+	return s
 }
 
 // runWorld builds one world under every selection through the API and checks each outcome.
@@ -172,7 +196,7 @@ func (rn *runner) runWorld(phase string, s *Spec, w *World, sels []Selection, di
 		sel := sel
 		rn.r.Eval(1)
 		cnt.add("api_builds", 1)
-		mkCase := func() any { return Case{Phase: phase, Spec: s, Selection: &sel, Files: files} }
+		mkCase := func() any { return Case{Phase: phase, Spec: s, Selection: &sel, Files: files, World: infoOf(w)} }
 		targets := refTargets(w, sel)
 		ws, err := bufx.Workspace(rn.ctx, bufx.MemBucket(files), sel.SubDir, sel.Paths, sel.Excludes, bufx.NopProviders)
 		var obs []obsFile
@@ -333,11 +357,11 @@ func run(r *evid.Run) {
 		"and WKT import variant in {none, Any used last, Any unused first, descriptor.proto used by a custom option with a message literal + unused timestamp.proto}; quick 2 of 16 decorations per world, thorough all 16) " +
 		"x every input directory (workspace root, each module directory). phase paths: the 25 DAG shapes on 3 files x kind rotation x assignments x every --path subset (size<=2) and --exclude-path subset (size<=1) " +
 		"over {every file, every directory, one non-existing path} (quick: 2 assignments per shape, two paths only without exclude; thorough: all 8 assignments, full product on 4 of them). " +
-		"phase shadow: workspaces that supply their own google/protobuf/any.proto. phase cli: `buf build <dir> -o -#format=binpb` with path selections on scratch directories, output decoded without bufimage. " +
+		"phase shadow: workspaces that supply their own google/protobuf/any.proto. phase remote: every DAG on 2..3 files (plain/public) x every split in which one part is a registry dependency pinned at a commit. phase dup: one path present in two modules. phase cli: `buf build <dir> -o -#format=binpb` with path selections on scratch directories, output decoded without bufimage. " +
 		"phase errors: 6 base workspaces x every token position x {delete, duplicate}, API and CLI (absolute and relative input directory). A case is distinct by (workspace, selection) resp. (base, file, token, operator); " +
 		"it is non-trivial if the image has >=2 files resp. the mutation is a compile error.")
 	r.Assume("the Protobuf compiler of the property is github.com/bufbuild/protocompile (the compiler buf links); it is run bare (own map resolver, standard imports, same SourceInfoMode, compiling exactly the reference targets) as the oracle")
-	r.Assume("modules are local workspace modules (no commit); remote modules with commits are covered by C10")
+	r.Assume("dependencies with a commit are served by an in-process provider (bufmoduletesting.OmniProvider) and pinned in buf.lock; API observation point only (the CLI's registry client cannot be replaced offline)")
 	r.Assume("selections buf refuses by design (module directory as --path/--exclude-path, exclude containing a path) may error; when they build, the image is checked")
 	r.Assume("the compiler reports unused imports only for the files it is asked to compile, so a non-targeted import never carries unused-dependency markers; this is taken as 'what the compiler produces'")
 
@@ -442,7 +466,7 @@ func run(r *evid.Run) {
 	r.Set("shadow_phase_worlds", nShadow)
 
 	phaseOn := func(p string) bool {
-		f := os.Getenv("C01_PHASES") // debugging aid: comma separated subset of graph,paths,shadow,cli,errors
+		f := os.Getenv("C01_PHASES") // debugging aid: comma separated subset of graph,paths,shadow,remote,dup,cli,errors
 		return f == "" || strings.Contains(","+f+",", ","+p+",")
 	}
 	if os.Getenv("C01_PHASES") != "" {
@@ -458,8 +482,8 @@ func run(r *evid.Run) {
 			return
 		}
 		sels := selections(w, it.mode, it.nope)
-		r.SampleEvery(i, 2503, func() any {
-			return Case{Phase: it.phase, Spec: it.spec, Selection: &sels[len(sels)-1], Files: w.BucketFiles()}
+		r.SampleEvery(i, 499, func() any {
+			return Case{Phase: it.phase, Spec: it.spec, Selection: &sels[len(sels)-1], Files: w.BucketFiles(), World: infoOf(w)}
 		})
 		rn.runWorld(it.phase, it.spec, w, sels, directFor)
 	})
@@ -469,6 +493,12 @@ func run(r *evid.Run) {
 		r.Incomplete("scratch: " + err.Error())
 	} else {
 		defer os.RemoveAll(scratch)
+		if phaseOn("remote") {
+			rn.runRemotePhase()
+		}
+		if phaseOn("dup") {
+			rn.runDupPhase()
+		}
 		if phaseOn("cli") {
 			rn.runCLIPhase(scratch, items)
 		}
@@ -491,7 +521,7 @@ func run(r *evid.Run) {
 		"clause_flag_targets", "clause_flag_imports", "clause_descriptor_files", "clause_unused_nonempty",
 		"clause_syntax_unspecified", "clause_owner_files", "clause_wkt_builtin", "clause_wkt_workspace_supplied",
 		"selection_with_paths", "selection_with_excludes", "selection_module_dir_input",
-		"cli_images", "error_cases_compile_error", "error_cases_still_compile", "cli_error_runs",
+		"clause_owner_files_with_commit", "dup_cases", "cli_images", "error_cases_compile_error", "error_cases_still_compile", "cli_error_runs",
 	} {
 		if rn.cnt[k] == 0 && !r.Expired() {
 			r.Incomplete("vacuous: counter " + k + " is zero")
